@@ -31,7 +31,7 @@ from hypothesis import strategies as st
 
 from .model import var, lit, decl, routine, module
 from . import gen as B
-from .gen_assoc import small_entry, checksum_epilogue, kernel_of, copy_case
+from .gen_assoc import small_entry, checksum_epilogue, kernel_of, copy_case, mentioned_names
 
 HAZARDS = ['forward-overlap', 'stride-mismatch', 'enclosing-loop-range', 'where-ranges', 'inquiry-on-array',
            'half-open-range', 'normalize-stride-dropped', 'flatten-section']
@@ -419,7 +419,11 @@ def gen_where(g, env, s, depth, hazard=False):
         lo = lb + g.i(0, ub - lb + 1 - ext)
         d = rdim(lo, lo + ext - 1, 1, 'full' if (ext == ub - lb + 1 and g.chance(50)) else 'lo:hi')
     q = (d['lo'], d['hi'], None)
-    if not hazard and q in avoid_ranges(s, depth):
+    deeper = set()
+    for k, rs in s.sect_ranges.items():
+        if k > depth:
+            deeper |= rs
+    if not hazard and (q in avoid_ranges(s, depth) or q in deeper):
         s.avoided.append('enclosing-loop-range')
         return None
     t = s.T
@@ -594,7 +598,7 @@ def index_section(g, env, s, strided=False):
     src = [m for m in s.dims if len(s.dims[m]) == 1 and s.dims[m][0][1] != 'n' and env.vars[m]['type'] == t and m != n
            and s.dims[m][0][1] - s.dims[m][0][0] >= (cnt - 1) * stt]
     rhs = B.expr_of(s.gq(g), env, t, 1)
-    if src and g.chance(70):
+    if src and not strided and g.chance(70):
         m = g.pick(src)
         lb2, ub2 = s.dims[m][0]
         lo2 = lb2 + g.i(0, ub2 - lb2 - (cnt - 1) * stt)
@@ -678,7 +682,7 @@ def gen_xforms(g, mode, hazard):
 
 
 @st.composite
-def cases(draw, hazard=None, nvec=4):
+def cases(draw, hazard=None, nvec=4, minimal=False):
     g = B.G(draw, dict(PROFILE))
     if hazard in VECTOR_HAZARDS:
         mode = 'vector'
@@ -698,7 +702,7 @@ def cases(draw, hazard=None, nvec=4):
     names = ['za', 'zb', 'zc', 'zn', 'zm', 'zo']
     funcs_r, funcs, subs_r, subs = [], [], [], []
     shapes = [(T, [[lbA, lbA + 4]]), (T, [[lbM, lbM + 2], [1, 4]])]
-    if g.chance(60):
+    if not minimal and g.chance(60):
         r, sig = B.gen_helper_sub(B.G(draw, dict(PROFILE, max_depth=2, max_stmts=3)), 0, [], shapes)
         subs_r.append(r)
         subs.append(sig)
@@ -724,8 +728,10 @@ def cases(draw, hazard=None, nvec=4):
         if v['dims']:
             s.dims[nm] = [tuple(d) for d in v['dims']]
     hz_stmts, hz_paths = [], []
-    body = gen_body(g, env, s, 0, 5)
-    if mode == 'vector' and s.ncertain == 0 and not hazard:
+    body = []
+    for _ in range(0 if minimal else g.i(4, 7)):
+        body += gen_stmt(g, env, s, 0, 4)
+    if mode == 'vector' and s.ncertain == 0 and not hazard and not minimal:
         r = section_assign(g, env, s, 0)
         if r is not None:
             body.append(r[0])
@@ -737,13 +743,27 @@ def cases(draw, hazard=None, nvec=4):
         hz_paths = [len(prologue) + pos + i for i in range(len(hz_stmts))]
         body = body[:pos] + hz_stmts + body[pos:]
         s.ncertain += 1
-    epi = checksum_epilogue(env, env.loopvars)
+    # the epilogue uses its own loop variables: the resolver re-uses the variable of ANY loop with a matching range
+    decls += [decl('lk0', 'int'), decl('lk1', 'int')]
+    if minimal:
+        # keep only what the known-finding statements mention
+        used = mentioned_names(hz_stmts) | {'n', 'xi0', 'xr0', 'yi0', 'yr0'}
+        for nm in [k for k in env.vars if k not in used]:
+            del env.vars[nm]
+        args = [a_ for a_ in args if a_ in used]
+        entry_args = [d for d in entry_args if d['name'] in used]
+        prologue = [st_ for st_ in prologue if st_[1][1][0][0] in used]
+        hz_paths = [len(prologue) + i for i in range(len(hz_stmts))]
+    epi = checksum_epilogue(env, ['lk0', 'lk1'])
+    if minimal:
+        used |= mentioned_names(epi)
+        decls = [d for d in decls if d['name'] in used]
     kern = routine('kernel', args, decls, prologue + body + epi)
     mod = module('kmod', routines=funcs_r + subs_r + [kern])
     f = {'name': 'kmod.f90', 'units': [['module', mod]]}
     inputs = B.gen_inputs(g, entry_args, nvec)
-    layout = B.gen_layout(g, g.pick(['plain', 'plain', 'light']))
-    if g.chance(50):
+    layout = B.gen_layout(g, g.pick(['plain', 'plain', 'light'])) if not minimal else {'stream': [0], 'indent': 2}
+    if not minimal and g.chance(50):
         layout['explicit_lb'] = True
     return {'files': [f], 'entry': {'module': 'kmod', 'name': 'kernel', 'args': entry_args},
             'inputs': inputs, 'layout': layout, 'mode': mode,
